@@ -26,64 +26,73 @@ func pureSweep(c *vf.Ctx, keys *chain.Keys) {
 		// block intervals whose blocks-per-year are and are not multiples of twelve (the monthly subsidy is paid per
 		// floor(blocks per year / 12) blocks - not a twelfth of the yearly amount)
 		for _, iv := range []time.Duration{n0.BlockInterval, 50 * time.Hour, 100 * time.Hour, 7 * time.Minute, 9 * time.Minute, 10 * time.Minute, 11 * time.Hour} {
-			nn := *n0
-			nn.BlockInterval = iv
-			n := &nn
-			perMonth := uint64(365*24*3600/int64(n.BlockInterval.Seconds())) / 12
-			var heights []uint64
-			for h := uint64(0); h <= 40; h++ {
-				heights = append(heights, h)
-			}
-			fh := n.HardforkFoundation.Height
-			for _, k := range []uint64{1, 2, 3, 12, 13} {
-				heights = append(heights, fh+k*perMonth-1, fh+k*perMonth, fh+k*perMonth+1)
-			}
-			heights = append(heights, 269999, 270000, 270001, 299999, 300000, 300001, 1<<32+5, 1<<62)
-			for _, h := range heights {
-				for _, primary := range []types.Address{n.HardforkFoundation.PrimaryAddress, types.VoidAddress, keys.Addr(chain.AddrV2)} {
-					cs := consensus.State{Network: n, Index: types.ChainIndex{Height: h - 1}, FoundationSubsidyAddress: primary, FoundationManagementAddress: n.HardforkFoundation.FailsafeAddress}
-					bad := func(what, got, want string) {
-						c.Violate("C01|policy-function|"+what, fmt.Sprintf("[%s child height %d] %s = %s, reference %s", name, h, what, got, want),
-							map[string]any{"policy_function": what, "network": name, "child_height": h, "seed": c.Seed})
-					}
-					c.Count("evaluations", 1)
-					if got, want := cs.BlockReward().Big(), chain.RefReward(n, h); got.Cmp(want) != 0 {
-						bad("BlockReward", got.String(), want.String())
-					}
-					if got, want := cs.MaturityHeight(), h+n.MaturityDelay; got != want {
-						bad("MaturityHeight", fmt.Sprint(got), fmt.Sprint(want))
-					}
-					sub, ok := cs.FoundationSubsidy()
-					want := chain.RefSubsidy(n, h, primary)
-					switch {
-					case ok != (want != nil):
-						bad("FoundationSubsidy(paid at this height)", fmt.Sprint(ok), fmt.Sprint(want != nil))
-					case ok && (sub.Value.Big().Cmp(want) != 0 || sub.Address != primary):
-						bad("FoundationSubsidy(amount, recipient)", fmt.Sprintf("%v to %v", sub.Value, sub.Address), fmt.Sprintf("%v to %v", want, primary))
-					}
-					c.Count("policy_function_checks", 3)
-					if primary != n.HardforkFoundation.PrimaryAddress || iv != n0.BlockInterval {
-						continue
-					}
-					for _, a := range amounts {
+			for cbi, cb := range [][2]types.Currency{{n0.InitialCoinbase, n0.MinimumCoinbase}, {types.Siacoins(300000), types.Siacoins(30000)}, {types.Siacoins(10).Add(types.NewCurrency64(1)), types.Siacoins(3)}, {types.Siacoins(7), types.Siacoins(7)}, {types.NewCurrency64(5), types.ZeroCurrency}} {
+				if cbi > 0 && iv != n0.BlockInterval {
+					continue // coinbase parameters and block interval are varied one at a time
+				}
+				nn := *n0
+				nn.BlockInterval = iv
+				nn.InitialCoinbase, nn.MinimumCoinbase = cb[0], cb[1]
+				if cbi > 0 {
+					nn.MaturityDelay = uint64(cbi) * 48
+				}
+				n := &nn
+				perMonth := uint64(365*24*3600/int64(n.BlockInterval.Seconds())) / 12
+				var heights []uint64
+				for h := uint64(0); h <= 40; h++ {
+					heights = append(heights, h)
+				}
+				fh := n.HardforkFoundation.Height
+				for _, k := range []uint64{1, 2, 3, 12, 13} {
+					heights = append(heights, fh+k*perMonth-1, fh+k*perMonth, fh+k*perMonth+1)
+				}
+				heights = append(heights, 269999, 270000, 270001, 299999, 300000, 300001, 1<<32+5, 1<<62)
+				for _, h := range heights {
+					for _, primary := range []types.Address{n.HardforkFoundation.PrimaryAddress, types.VoidAddress, keys.Addr(chain.AddrV2)} {
+						cs := consensus.State{Network: n, Index: types.ChainIndex{Height: h - 1}, FoundationSubsidyAddress: primary, FoundationManagementAddress: n.HardforkFoundation.FailsafeAddress}
+						bad := func(what, got, want string) {
+							c.Violate("C01|policy-function|"+what, fmt.Sprintf("[%s child height %d] %s = %s, reference %s", name, h, what, got, want),
+								map[string]any{"policy_function": what, "network": name, "child_height": h, "seed": c.Seed})
+						}
 						c.Count("evaluations", 1)
-						c.Distinct("policy", name, h, a.String())
-						var got *big.Int
-						if p, _ := vf.Try(func() { got = cs.FileContractTax(types.FileContract{Payout: a}).Big() }); p != nil {
-							bad("FileContractTax(panic)", fmt.Sprint(p), "a value")
-						} else if want := chain.RefTaxV1(n, h, a); got.Cmp(want) != 0 {
-							bad("FileContractTax", got.String()+" for payout "+a.String(), want.String())
+						if got, want := cs.BlockReward().Big(), chain.RefReward(n, h); got.Cmp(want) != 0 {
+							bad("BlockReward", got.String(), want.String())
 						}
-						for _, b := range []types.Currency{types.ZeroCurrency, types.NewCurrency64(24), a} {
-							fc := types.V2FileContract{RenterOutput: types.SiacoinOutput{Value: a}, HostOutput: types.SiacoinOutput{Value: b}}
-							if _, over := a.AddWithOverflow(b); over {
-								continue
-							}
-							if got, want := cs.V2FileContractTax(fc).Big(), chain.RefTaxV2(fc); got.Cmp(want) != 0 {
-								bad("V2FileContractTax", got.String(), want.String())
-							}
+						if got, want := cs.MaturityHeight(), h+n.MaturityDelay; got != want {
+							bad("MaturityHeight", fmt.Sprint(got), fmt.Sprint(want))
 						}
-						c.Count("policy_function_checks", 4)
+						sub, ok := cs.FoundationSubsidy()
+						want := chain.RefSubsidy(n, h, primary)
+						switch {
+						case ok != (want != nil):
+							bad("FoundationSubsidy(paid at this height)", fmt.Sprint(ok), fmt.Sprint(want != nil))
+						case ok && (sub.Value.Big().Cmp(want) != 0 || sub.Address != primary):
+							bad("FoundationSubsidy(amount, recipient)", fmt.Sprintf("%v to %v", sub.Value, sub.Address), fmt.Sprintf("%v to %v", want, primary))
+						}
+						c.Count("policy_function_checks", 3)
+						if primary != n.HardforkFoundation.PrimaryAddress || iv != n0.BlockInterval || cbi > 0 {
+							continue
+						}
+						for _, a := range amounts {
+							c.Count("evaluations", 1)
+							c.Distinct("policy", name, h, a.String())
+							var got *big.Int
+							if p, _ := vf.Try(func() { got = cs.FileContractTax(types.FileContract{Payout: a}).Big() }); p != nil {
+								bad("FileContractTax(panic)", fmt.Sprint(p), "a value")
+							} else if want := chain.RefTaxV1(n, h, a); got.Cmp(want) != 0 {
+								bad("FileContractTax", got.String()+" for payout "+a.String(), want.String())
+							}
+							for _, b := range []types.Currency{types.ZeroCurrency, types.NewCurrency64(24), a} {
+								fc := types.V2FileContract{RenterOutput: types.SiacoinOutput{Value: a}, HostOutput: types.SiacoinOutput{Value: b}}
+								if _, over := a.AddWithOverflow(b); over {
+									continue
+								}
+								if got, want := cs.V2FileContractTax(fc).Big(), chain.RefTaxV2(fc); got.Cmp(want) != 0 {
+									bad("V2FileContractTax", got.String(), want.String())
+								}
+							}
+							c.Count("policy_function_checks", 4)
+						}
 					}
 				}
 			}
